@@ -256,6 +256,35 @@ def validator_orders(ctx, conf):
                     break
             if not ok:
                 break
+        # one mutable window object refilled in place (a capture buffer): the verdict follows the content, not the object
+        import array
+
+        import numpy as np
+
+        longest = max(len(w) for w in windows)
+        pool = [w for w in windows if len(w) == longest]
+        if len(pool) >= 2 and ok:
+            kind_ = rng.choice(("bytearray", "memoryview", "array", "numpy"))
+            buf = bytearray(pool[0])
+            if kind_ == "bytearray":
+                obj = buf
+            elif kind_ == "memoryview":
+                obj = memoryview(buf)
+            elif kind_ == "array":
+                obj = array.array({1: "b", 2: "h", 4: "i"}[width], bytes(buf))
+            else:
+                obj = np.frombuffer(buf, dtype={1: np.int8, 2: np.int16, 4: np.int32}[width])
+            for w in pool + pool[::-1]:
+                if kind_ == "array":
+                    obj[:] = array.array(obj.typecode, w)
+                else:
+                    buf[:] = w
+                exp_ = bool(AudioEnergyValidator(thr, width, channels, use_channel=uc).is_valid(w))
+                ctx.count("refilled_window_objects_checked")
+                if bool(v.is_valid(obj)) != exp_:
+                    ctx.violation("validator-verdict-depends-on-history", {"case": {"width": width, "channels": channels, "uc": uc, "thr": thr,
+                                                                                   "reused_container": kind_, "windows": [x.hex() for x in pool]}})
+                    break
         ctx.case(repr(("validator", width, channels, uc, thr, windows)), any(base))
         if ctx.out_of_time():
             return
@@ -272,6 +301,16 @@ def buffer_reopen(ctx):
         for _ in range(rng.randint(0, 4)):
             src.read(rng.randint(1, 6))
         src.close()
+        if i % 3 == 1:
+            # the position is moved while the source is closed, then it is closed again and reopened
+            try:
+                if i % 2:
+                    src.position = rng.randint(0, n)
+                else:
+                    src.position_s = rng.randint(0, n) / 10
+            except Exception:
+                pass
+            src.close()
         src.open()
         got = src.read(n)
         ctx.case(repr(("buffer", data, width, channels)), True)
@@ -303,7 +342,7 @@ def replay(ctx, case):
 
 def inconclusive(merged, tier):
     c = merged["counters"]
-    need = ["reuse_pairs", "exhaustive_pairs", "repeated_split_cases", "repeated_splits_compared", "validator_verdicts_compared",
+    need = ["reuse_pairs", "exhaustive_pairs", "repeated_split_cases", "repeated_splits_compared", "validator_verdicts_compared", "refilled_window_objects_checked",
             "buffer_reopen_cases"] + ["use_" + u for u in USES]
     return [f"monitor never observed {k}" for k in need if c.get(k, 0) == 0]
 
